@@ -88,6 +88,11 @@ def run(ctx):
         ('C14.R5', 'in every arm the request-side operand and the stored-side operand of the deciding comparison have the same kind (raw value vs KMIP wrapper object)'),
     ):
         ctx.rule(rid, text)
+    # the access-filtered list itself: each object is included only on the allowed edge of the decision taken for that object
+    ctx.rule('C14.R6', 'the lister includes an object only on the allowed edge of the policy decision evaluated for that very object (policy name, requester identity, owner, type, LOCATE) in the same iteration')
+    from .c03 import check_decision_points
+    from ..engmodel import LISTER
+    check_decision_points(ctx, m, 'C14.R6', (LISTER,))
     fn = m.method('_process_locate')
     g = CFG(fn)
     rd = ReachingDefs(g)
